@@ -1,3 +1,722 @@
-//! C02 — bounded checks (to be written)
-use crate::ctx::Ctx;
-pub fn run(_ctx: &mut Ctx) {}
+//! C02 — the tensor product is strict juxtaposition (strict and lax representation), hence
+//! associative and unital ON THE NOSE (equal raw data).
+//!
+//! Oracle: `juxt` below — plain loops written from the statement: everything of f first, then
+//! everything of g with node indices shifted by f's node count; pending unifications of a lax
+//! diagram are data like everything else and are juxtaposed the same way.  Results of the real
+//! library are read field by field from the raw public fields (including every `target` /
+//! segment-size field of the strict representation) and compared for EQUALITY, not isomorphism.
+use crate::ctx::{guard, Ctx, Rng};
+use crate::model::*;
+use open_hypergraphs::array::vec::*;
+use open_hypergraphs::category::*;
+use open_hypergraphs::finite_function::FiniteFunction;
+use open_hypergraphs::indexed_coproduct::IndexedCoproduct;
+use open_hypergraphs::lax;
+use open_hypergraphs::semifinite::SemifiniteFunction;
+use serde_json::{json, Value};
+
+type Check = fn(&mut Ctx, &Value);
+const CHECKS: &[(&str, Check)] = &[
+    ("ff_tensor", chk_ff_tensor),
+    ("ic_tensor", chk_ic_tensor),
+    ("strict_tensor", chk_strict_tensor),
+    ("strict_assoc", chk_strict_assoc),
+    ("strict_unit", chk_strict_unit),
+    ("lax_tensor", chk_lax_tensor),
+    ("lax_assoc", chk_lax_assoc),
+    ("lax_unit", chk_lax_unit),
+];
+
+// ------------------------------------------------------------------------------------------------
+// plain lax model: a model plus the list of pending unifications (ordered pairs, in order)
+// ------------------------------------------------------------------------------------------------
+#[derive(Clone, Debug, PartialEq)]
+struct Lx {
+    m: M,
+    q: Vec<(usize, usize)>,
+}
+
+impl Lx {
+    fn json(&self) -> Value {
+        let mut v = self.m.json();
+        v["q"] = json!(self.q.iter().map(|&(a, b)| vec![a, b]).collect::<Vec<_>>());
+        v
+    }
+    fn from_json(v: &Value) -> Option<Lx> {
+        let m = M::from_json(v)?;
+        let mut q = vec![];
+        if let Some(arr) = v.get("q").and_then(|x| x.as_array()) {
+            for p in arr {
+                let p = p.as_array()?;
+                if p.len() != 2 {
+                    return None;
+                }
+                q.push((p[0].as_u64()? as usize, p[1].as_u64()? as usize));
+            }
+        }
+        Some(Lx { m, q })
+    }
+    fn valid(&self) -> bool {
+        let n = self.m.w.len();
+        self.m.valid() && self.q.iter().all(|&(a, b)| a < n && b < n)
+    }
+    fn to_lax(&self) -> LOH {
+        let mut l = self.m.to_lax();
+        for &(a, b) in &self.q {
+            l.hypergraph.quotient.0.push(lax::NodeId(a));
+            l.hypergraph.quotient.1.push(lax::NodeId(b));
+        }
+        l
+    }
+    /// read every field of a lax diagram; Err if the parallel arrays are not parallel
+    fn read(l: &LOH) -> Result<Lx, String> {
+        let h = &l.hypergraph;
+        if h.adjacency.len() != h.edges.len() {
+            return Err(format!("{} adjacency entries for {} edge labels", h.adjacency.len(), h.edges.len()));
+        }
+        if h.quotient.0.len() != h.quotient.1.len() {
+            return Err(format!("quotient lists of different length {} / {}", h.quotient.0.len(), h.quotient.1.len()));
+        }
+        let (m, q) = M::from_lax(l);
+        Ok(Lx { m, q })
+    }
+}
+
+/// THE ORACLE: f followed by g, g's node indices shifted by f's node count.
+fn juxt(f: &Lx, g: &Lx) -> Lx {
+    let n = f.m.w.len();
+    let mut r = Lx { m: M::empty(), q: vec![] };
+    for &l in &f.m.w {
+        r.m.w.push(l);
+    }
+    for &l in &g.m.w {
+        r.m.w.push(l);
+    }
+    for e in 0..f.m.x.len() {
+        r.m.x.push(f.m.x[e]);
+        r.m.src.push(f.m.src[e].clone());
+        r.m.tgt.push(f.m.tgt[e].clone());
+    }
+    for e in 0..g.m.x.len() {
+        r.m.x.push(g.m.x[e]);
+        r.m.src.push(g.m.src[e].iter().map(|&v| v + n).collect());
+        r.m.tgt.push(g.m.tgt[e].iter().map(|&v| v + n).collect());
+    }
+    for &v in &f.m.s {
+        r.m.s.push(v);
+    }
+    for &v in &g.m.s {
+        r.m.s.push(v + n);
+    }
+    for &v in &f.m.t {
+        r.m.t.push(v);
+    }
+    for &v in &g.m.t {
+        r.m.t.push(v + n);
+    }
+    for &(a, b) in &f.q {
+        r.q.push((a, b));
+    }
+    for &(a, b) in &g.q {
+        r.q.push((a + n, b + n));
+    }
+    r
+}
+
+fn plain(m: &M) -> Lx {
+    Lx { m: m.clone(), q: vec![] }
+}
+
+/// every raw field of a strict open hypergraph, for on-the-nose comparison
+fn raw(f: &SOH) -> Value {
+    let ic = |c: &IC| json!({"sizes": c.sources.table.0, "sizes_target": c.sources.target, "values": c.values.table.0, "values_target": c.values.target});
+    json!({"s": f.s.table.0, "s_target": f.s.target, "t": f.t.table.0, "t_target": f.t.target,
+           "h_s": ic(&f.h.s), "h_t": ic(&f.h.t), "w": f.h.w.0 .0, "x": f.h.x.0 .0})
+}
+
+/// compare one strict result with the expected juxtaposition, clause by clause
+fn compare_strict(ctx: &mut Ctx, check: &str, input: &Value, r: &SOH, e: &M, f: &M, g: &M) {
+    let m = match strict_wf(r) {
+        Err(why) => {
+            ctx.fail(check, "C02.strict-wf", input, json!(why), e.json());
+            return;
+        }
+        Ok(m) => m,
+    };
+    ctx.expect(m.w == e.w, check, "C02.strict-nodes", input, json!(m.w), json!(e.w));
+    ctx.expect(m.x == e.x, check, "C02.strict-edges", input, json!(m.x), json!(e.x));
+    ctx.expect(m.src == e.src, check, "C02.strict-edge-sources", input, json!(m.src), json!(e.src));
+    ctx.expect(m.tgt == e.tgt, check, "C02.strict-edge-targets", input, json!(m.tgt), json!(e.tgt));
+    ctx.expect(m.s == e.s, check, "C02.strict-source-interface", input, json!(m.s), json!(e.s));
+    ctx.expect(m.t == e.t, check, "C02.strict-target-interface", input, json!(m.t), json!(e.t));
+    // type of the result = concatenation of the types, asked of the library itself
+    let want_s: Vec<u8> = f.source_type().into_iter().chain(g.source_type()).collect();
+    let want_t: Vec<u8> = f.target_type().into_iter().chain(g.target_type()).collect();
+    match guard(|| (Arrow::source(r).0 .0, Arrow::target(r).0 .0)) {
+        Err(p) => ctx.fail(check, "C02.strict-type", input, json!(format!("panic: {}", p)), json!([want_s, want_t])),
+        Ok((ts, tt)) => {
+            ctx.expect(ts == want_s, check, "C02.strict-type", input, json!(ts), json!(want_s));
+            ctx.expect(tt == want_t, check, "C02.strict-type", input, json!(tt), json!(want_t));
+        }
+    }
+}
+
+// ------------------------------------------------------------------------------------------------
+// component checks
+// ------------------------------------------------------------------------------------------------
+fn ff_from_json(v: &Value) -> Option<(Vec<usize>, usize)> {
+    let table: Vec<usize> = v.get("table")?.as_array()?.iter().map(|x| x.as_u64().map(|y| y as usize)).collect::<Option<_>>()?;
+    let target = v.get("target")?.as_u64()? as usize;
+    if table.iter().any(|&x| x >= target) {
+        return None;
+    }
+    Some((table, target))
+}
+
+/// input: {"f": {"table","target"}, "g": {"table","target"}} — tensor of finite functions
+fn chk_ff_tensor(ctx: &mut Ctx, input: &Value) {
+    let ((ft, fn_), (gt, gn)) = match (ff_from_json(&input["f"]), ff_from_json(&input["g"])) {
+        (Some(f), Some(g)) => (f, g),
+        _ => return,
+    };
+    ctx.case("ff_tensor", input, !gt.is_empty() && fn_ > 0);
+    let mut want = ft.clone();
+    for &v in &gt {
+        want.push(v + fn_);
+    }
+    let want_target = fn_ + gn;
+    let f: FF = FiniteFunction::new(VecArray(ft), fn_).unwrap();
+    let g: FF = FiniteFunction::new(VecArray(gt), gn).unwrap();
+    for (how, got) in [("tensor", guard(|| Monoidal::tensor(&f, &g))), ("bitor", guard(|| &f | &g))] {
+        match got {
+            Err(p) => ctx.fail("ff_tensor", "C02.ff-no-panic", input, json!(format!("{}: panic: {}", how, p)), json!(want)),
+            Ok(r) => {
+                ctx.expect(r.table.0 == want, "ff_tensor", "C02.ff-table", input, json!(r.table.0), json!(want));
+                ctx.expect(r.target == want_target, "ff_tensor", "C02.ff-target", input, json!(r.target), json!(want_target));
+            }
+        }
+    }
+}
+
+fn segs_from_json(v: &Value) -> Option<(Vec<Vec<usize>>, usize)> {
+    let segs: Vec<Vec<usize>> = v
+        .get("segs")?
+        .as_array()?
+        .iter()
+        .map(|s| s.as_array().and_then(|a| a.iter().map(|x| x.as_u64().map(|y| y as usize)).collect::<Option<Vec<usize>>>()))
+        .collect::<Option<_>>()?;
+    let target = v.get("target")?.as_u64()? as usize;
+    if segs.iter().flatten().any(|&x| x >= target) {
+        return None;
+    }
+    Some((segs, target))
+}
+
+fn mk_ic(segs: &[Vec<usize>], target: usize) -> IC {
+    let sizes: Vec<usize> = segs.iter().map(|l| l.len()).collect();
+    let vals: Vec<usize> = segs.iter().flatten().cloned().collect();
+    IndexedCoproduct::from_semifinite(SemifiniteFunction(VecArray(sizes)), FiniteFunction::new(VecArray(vals), target).unwrap()).unwrap()
+}
+
+/// input: {"f": {"segs","target"}, "g": {"segs","target"}} — tensor of segmented arrays
+fn chk_ic_tensor(ctx: &mut Ctx, input: &Value) {
+    let ((fs, fn_), (gs, gn)) = match (segs_from_json(&input["f"]), segs_from_json(&input["g"])) {
+        (Some(f), Some(g)) => (f, g),
+        _ => return,
+    };
+    ctx.case("ic_tensor", input, fn_ > 0 && gs.iter().any(|s| !s.is_empty()));
+    let mut want: Vec<Vec<usize>> = vec![];
+    for s in &fs {
+        want.push(s.clone());
+    }
+    for s in &gs {
+        want.push(s.iter().map(|&v| v + fn_).collect());
+    }
+    let (f, g) = (mk_ic(&fs, fn_), mk_ic(&gs, gn));
+    match guard(|| f.tensor(&g)) {
+        Err(p) => ctx.fail("ic_tensor", "C02.ic-no-panic", input, json!(format!("panic: {}", p)), json!(want)),
+        Ok(r) => match ic_wf(&r, Some(fs.len() + gs.len()), Some(fn_ + gn)) {
+            Err(why) => ctx.fail("ic_tensor", "C02.ic-wf", input, json!(why), json!(want)),
+            Ok(got) => {
+                ctx.expect(got == want, "ic_tensor", "C02.ic-segments", input, json!(got), json!(want));
+            }
+        },
+    }
+}
+
+// ------------------------------------------------------------------------------------------------
+// strict representation
+// ------------------------------------------------------------------------------------------------
+fn two(input: &Value) -> Option<(Lx, Lx)> {
+    match (Lx::from_json(&input["f"]), Lx::from_json(&input["g"])) {
+        (Some(f), Some(g)) if f.valid() && g.valid() => Some((f, g)),
+        _ => None,
+    }
+}
+fn three(input: &Value) -> Option<(Lx, Lx, Lx)> {
+    match (Lx::from_json(&input["f"]), Lx::from_json(&input["g"]), Lx::from_json(&input["h"])) {
+        (Some(f), Some(g), Some(h)) if f.valid() && g.valid() && h.valid() => Some((f, g, h)),
+        _ => None,
+    }
+}
+/// the shift matters: the left operand has a node and the right operand mentions a node somewhere
+fn shift_matters(f: &Lx, g: &Lx) -> bool {
+    !f.m.w.is_empty() && (g.m.s.len() + g.m.t.len() + g.q.len() + g.m.src.iter().chain(g.m.tgt.iter()).map(|l| l.len()).sum::<usize>()) > 0
+}
+
+/// input: {"f": model, "g": model}
+fn chk_strict_tensor(ctx: &mut Ctx, input: &Value) {
+    let (f, g) = match two(input) {
+        Some(x) => x,
+        None => return,
+    };
+    ctx.case("strict_tensor", input, shift_matters(&f, &g));
+    let e = juxt(&plain(&f.m), &plain(&g.m)).m;
+    let (sf, sg) = (f.m.to_strict(), g.m.to_strict());
+    for (how, got) in [("tensor", guard(|| Monoidal::tensor(&sf, &sg))), ("bitor", guard(|| &sf | &sg))] {
+        match got {
+            Err(p) => ctx.fail("strict_tensor", "C02.strict-no-panic", input, json!(format!("{}: panic: {}", how, p)), e.json()),
+            Ok(r) => compare_strict(ctx, "strict_tensor", input, &r, &e, &f.m, &g.m),
+        }
+    }
+    // the hypergraph coproduct on its own (method and `+`)
+    for (how, got) in [("coproduct", guard(|| sf.h.coproduct(&sg.h))), ("add", guard(|| &sf.h + &sg.h))] {
+        match got {
+            Err(p) => ctx.fail("strict_tensor", "C02.strict-no-panic", input, json!(format!("{}: panic: {}", how, p)), e.json()),
+            Ok(h) => {
+                let n = e.w.len();
+                let k = e.x.len();
+                let ok_w = h.w.0 .0 == e.w && h.x.0 .0 == e.x;
+                ctx.expect(ok_w, "strict_tensor", "C02.hypergraph-coproduct-labels", input, json!([h.w.0 .0, h.x.0 .0]), json!([e.w, e.x]));
+                match (ic_wf(&h.s, Some(k), Some(n)), ic_wf(&h.t, Some(k), Some(n))) {
+                    (Ok(s), Ok(t)) => {
+                        ctx.expect(s == e.src && t == e.tgt, "strict_tensor", "C02.hypergraph-coproduct-incidence", input, json!([s, t]), json!([e.src, e.tgt]));
+                    }
+                    (a, b) => ctx.fail("strict_tensor", "C02.strict-wf", input, json!(format!("{}: {:?} {:?}", how, a.err(), b.err())), e.json()),
+                }
+            }
+        }
+    }
+}
+
+/// input: {"f","g","h"} models — (f⊗g)⊗h and f⊗(g⊗h) are the same raw data
+fn chk_strict_assoc(ctx: &mut Ctx, input: &Value) {
+    let (f, g, h) = match three(input) {
+        Some(x) => x,
+        None => return,
+    };
+    ctx.case("strict_assoc", input, shift_matters(&f, &g) && shift_matters(&g, &h));
+    let e = juxt(&juxt(&plain(&f.m), &plain(&g.m)), &plain(&h.m)).m;
+    let (sf, sg, sh) = (f.m.to_strict(), g.m.to_strict(), h.m.to_strict());
+    let l = guard(|| Monoidal::tensor(&Monoidal::tensor(&sf, &sg), &sh));
+    let r = guard(|| Monoidal::tensor(&sf, &Monoidal::tensor(&sg, &sh)));
+    match (l, r) {
+        (Ok(l), Ok(r)) => {
+            let (rl, rr) = (raw(&l), raw(&r));
+            ctx.expect(rl == rr, "strict_assoc", "C02.strict-associative", input, rl, rr);
+            for x in [&l, &r] {
+                match strict_wf(x) {
+                    Err(why) => ctx.fail("strict_assoc", "C02.strict-wf", input, json!(why), e.json()),
+                    Ok(m) => {
+                        ctx.expect(m == e, "strict_assoc", "C02.strict-triple-juxtaposition", input, m.json(), e.json());
+                    }
+                }
+            }
+        }
+        (l, r) => ctx.fail("strict_assoc", "C02.strict-no-panic", input, json!(format!("panic: {:?} {:?}", l.err(), r.err())), e.json()),
+    }
+}
+
+fn strict_empties() -> Vec<(&'static str, SOH)> {
+    vec![
+        ("identity(unit)", <SOH as Arrow>::identity(<SOH as Monoidal>::unit())),
+        ("model-empty", M::empty().to_strict()),
+        (
+            "spider-empty",
+            SOH::spider(FiniteFunction::new(VecArray(vec![]), 0).unwrap(), FiniteFunction::new(VecArray(vec![]), 0).unwrap(), SemifiniteFunction(VecArray(vec![]))).unwrap(),
+        ),
+    ]
+}
+
+/// input: {"f": model} — empty ⊗ f = f = f ⊗ empty as raw data
+fn chk_strict_unit(ctx: &mut Ctx, input: &Value) {
+    let f = match Lx::from_json(&input["f"]) {
+        Some(f) if f.valid() => f,
+        _ => return,
+    };
+    ctx.case("strict_unit", input, f.m.nontrivial());
+    let sf = f.m.to_strict();
+    let want = raw(&sf);
+    let unit_ty = guard(|| <SOH as Monoidal>::unit().0 .0);
+    ctx.expect(unit_ty == Ok(vec![]), "strict_unit", "C02.strict-unit-object", input, json!(format!("{:?}", unit_ty)), json!([]));
+    let empties = match guard(strict_empties) {
+        Ok(e) => e,
+        Err(p) => {
+            ctx.fail("strict_unit", "C02.strict-no-panic", input, json!(format!("building the empty diagram: panic: {}", p)), json!("empty diagram"));
+            return;
+        }
+    };
+    for (name, e) in &empties {
+        let left = guard(|| Monoidal::tensor(e, &sf));
+        let right = guard(|| Monoidal::tensor(&sf, e));
+        for (side, got) in [("left", left), ("right", right)] {
+            match got {
+                Err(p) => ctx.fail("strict_unit", "C02.strict-no-panic", input, json!(format!("{} {}: panic: {}", name, side, p)), want.clone()),
+                Ok(r) => {
+                    let rr = raw(&r);
+                    let clause = if side == "left" { "C02.strict-left-unit" } else { "C02.strict-right-unit" };
+                    ctx.expect(rr == want, "strict_unit", clause, input, json!({"empty": name, "result": rr}), want.clone());
+                }
+            }
+        }
+    }
+}
+
+// ------------------------------------------------------------------------------------------------
+// lax representation
+// ------------------------------------------------------------------------------------------------
+fn compare_lax(ctx: &mut Ctx, check: &str, input: &Value, r: &LOH, e: &Lx) {
+    let got = match Lx::read(r) {
+        Err(why) => {
+            ctx.fail(check, "C02.lax-wf", input, json!(why), e.json());
+            return;
+        }
+        Ok(x) => x,
+    };
+    ctx.expect(got.m.w == e.m.w, check, "C02.lax-nodes", input, json!(got.m.w), json!(e.m.w));
+    ctx.expect(got.m.x == e.m.x, check, "C02.lax-edges", input, json!(got.m.x), json!(e.m.x));
+    ctx.expect(got.m.src == e.m.src && got.m.tgt == e.m.tgt, check, "C02.lax-adjacency", input, json!([got.m.src, got.m.tgt]), json!([e.m.src, e.m.tgt]));
+    ctx.expect(got.m.s == e.m.s, check, "C02.lax-source-interface", input, json!(got.m.s), json!(e.m.s));
+    ctx.expect(got.m.t == e.m.t, check, "C02.lax-target-interface", input, json!(got.m.t), json!(e.m.t));
+    ctx.expect(got.q == e.q, check, "C02.lax-quotient", input, json!(got.q), json!(e.q));
+}
+
+/// input: {"f": lax model, "g": lax model}  (lax model = model + "q": [[a,b],..])
+fn chk_lax_tensor(ctx: &mut Ctx, input: &Value) {
+    let (f, g) = match two(input) {
+        Some(x) => x,
+        None => return,
+    };
+    ctx.case("lax_tensor", input, shift_matters(&f, &g));
+    let e = juxt(&f, &g);
+    let (lf, lg) = (f.to_lax(), g.to_lax());
+    let results = [
+        ("tensor", guard(|| lf.tensor(&lg))),
+        ("Monoidal::tensor", guard(|| <LOH as Monoidal>::tensor(&lf, &lg))),
+        ("bitor", guard(|| &lf | &lg)),
+    ];
+    for (how, got) in results {
+        match got {
+            Err(p) => ctx.fail("lax_tensor", "C02.lax-no-panic", input, json!(format!("{}: panic: {}", how, p)), e.json()),
+            Ok(r) => {
+                compare_lax(ctx, "lax_tensor", input, &r, &e);
+                // type = concatenation of the types (labels read through the un-quotiented node list)
+                let want_s: Vec<u8> = f.m.source_type().into_iter().chain(g.m.source_type()).collect();
+                let want_t: Vec<u8> = f.m.target_type().into_iter().chain(g.m.target_type()).collect();
+                match guard(|| (Arrow::source(&r), Arrow::target(&r))) {
+                    Err(p) => ctx.fail("lax_tensor", "C02.lax-type", input, json!(format!("panic: {}", p)), json!([want_s, want_t])),
+                    Ok((ts, tt)) => {
+                        ctx.expect(ts == want_s && tt == want_t, "lax_tensor", "C02.lax-type", input, json!([ts, tt]), json!([want_s, want_t]));
+                    }
+                }
+            }
+        }
+    }
+    // the operands are not consumed or changed
+    ctx.expect(Lx::read(&lf).as_ref() == Ok(&f) && Lx::read(&lg).as_ref() == Ok(&g), "lax_tensor", "C02.lax-operands-unchanged", input, json!("changed"), json!("unchanged"));
+    // the hypergraph coproduct on its own
+    match guard(|| open_hypergraphs::verif_hooks::lax_hypergraph_coproduct(&lf.hypergraph, &lg.hypergraph)) {
+        Err(p) => ctx.fail("lax_tensor", "C02.lax-no-panic", input, json!(format!("coproduct: panic: {}", p)), e.json()),
+        Ok(h) => {
+            let r = lax::OpenHypergraph { sources: vec![], targets: vec![], hypergraph: h };
+            let mut e2 = e.clone();
+            e2.m.s = vec![];
+            e2.m.t = vec![];
+            compare_lax(ctx, "lax_tensor", input, &r, &e2);
+        }
+    }
+}
+
+/// input: {"f","g","h"} lax models
+fn chk_lax_assoc(ctx: &mut Ctx, input: &Value) {
+    let (f, g, h) = match three(input) {
+        Some(x) => x,
+        None => return,
+    };
+    ctx.case("lax_assoc", input, shift_matters(&f, &g) && shift_matters(&g, &h));
+    let e = juxt(&f, &juxt(&g, &h));
+    let (lf, lg, lh) = (f.to_lax(), g.to_lax(), h.to_lax());
+    let l = guard(|| lf.tensor(&lg).tensor(&lh));
+    let r = guard(|| lf.tensor(&lg.tensor(&lh)));
+    match (l, r) {
+        (Ok(l), Ok(r)) => {
+            let same = l == r && Lx::read(&l) == Lx::read(&r);
+            ctx.expect(same, "lax_assoc", "C02.lax-associative", input, json!(format!("{:?}", l)), json!(format!("{:?}", r)));
+            compare_lax(ctx, "lax_assoc", input, &l, &e);
+            compare_lax(ctx, "lax_assoc", input, &r, &e);
+        }
+        (l, r) => ctx.fail("lax_assoc", "C02.lax-no-panic", input, json!(format!("panic: {:?} {:?}", l.err(), r.err())), e.json()),
+    }
+}
+
+/// input: {"f": lax model}
+fn chk_lax_unit(ctx: &mut Ctx, input: &Value) {
+    let f = match Lx::from_json(&input["f"]) {
+        Some(f) if f.valid() => f,
+        _ => return,
+    };
+    ctx.case("lax_unit", input, f.m.nontrivial());
+    let lf = f.to_lax();
+    let unit_ty = guard(|| <LOH as Monoidal>::unit());
+    ctx.expect(unit_ty == Ok(vec![]), "lax_unit", "C02.lax-unit-object", input, json!(format!("{:?}", unit_ty)), json!([]));
+    let empties: Vec<(&str, Result<LOH, String>)> = vec![
+        ("empty()", guard(|| LOH::empty())),
+        ("identity(unit)", guard(|| LOH::identity(<LOH as Monoidal>::unit()))),
+    ];
+    for (name, e) in empties {
+        let e = match e {
+            Ok(e) => e,
+            Err(p) => {
+                ctx.fail("lax_unit", "C02.lax-no-panic", input, json!(format!("{}: panic: {}", name, p)), json!("empty diagram"));
+                continue;
+            }
+        };
+        for (side, got) in [("left", guard(|| e.tensor(&lf))), ("right", guard(|| lf.tensor(&e)))] {
+            match got {
+                Err(p) => ctx.fail("lax_unit", "C02.lax-no-panic", input, json!(format!("{} {}: panic: {}", name, side, p)), f.json()),
+                Ok(r) => {
+                    let clause = if side == "left" { "C02.lax-left-unit" } else { "C02.lax-right-unit" };
+                    let same = r == lf && Lx::read(&r).as_ref() == Ok(&f);
+                    ctx.expect(same, "lax_unit", clause, input, json!(format!("{} : {:?}", name, r)), f.json());
+                }
+            }
+        }
+    }
+}
+
+// ------------------------------------------------------------------------------------------------
+// generators
+// ------------------------------------------------------------------------------------------------
+const LARGE: Bounds = Bounds { nodes: 12, edges: 6, arity: 5, iface: 9, labels: 3 };
+
+/// random pending unifications (any pairs: tensoring does not look at labels)
+fn random_q(r: &mut Rng, n: usize, max_pairs: usize) -> Vec<(usize, usize)> {
+    if n == 0 || r.chance(1, 3) {
+        return vec![];
+    }
+    let k = r.range(1, max_pairs);
+    (0..k).map(|_| (r.below(n), r.below(n))).collect()
+}
+
+fn random_lx(r: &mut Rng, b: Bounds) -> Lx {
+    let m = random_model(r, b);
+    let q = random_q(r, m.w.len(), 4);
+    Lx { m, q }
+}
+
+/// corner list: model corners plus the ones the tensor's special cases would get wrong
+fn corner_lx() -> Vec<Lx> {
+    let mut out: Vec<Lx> = corner_models().iter().map(plain).collect();
+    let mk = |w: Vec<u8>, x: Vec<u8>, src: Vec<Vec<usize>>, tgt: Vec<Vec<usize>>, s: Vec<usize>, t: Vec<usize>, q: Vec<(usize, usize)>| Lx { m: M { w, x, src, tgt, s, t }, q };
+    // no nodes but two zero-arity edges (a "nothing to shift" shortcut must not drop them)
+    out.push(mk(vec![], vec![10, 11], vec![vec![], vec![]], vec![vec![], vec![]], vec![], vec![], vec![]));
+    // nodes but nothing else (only the node count of the left operand matters)
+    out.push(mk(vec![0, 1, 1], vec![], vec![], vec![], vec![], vec![], vec![]));
+    // interfaces much longer than the node set, different lengths on both sides
+    out.push(mk(vec![1], vec![], vec![], vec![], vec![0; 5], vec![0; 2], vec![]));
+    // more interface entries and more edges than nodes; source and target interface of different length
+    out.push(mk(vec![0, 1], vec![10, 11, 10], vec![vec![1, 1, 0], vec![], vec![0]], vec![vec![], vec![0, 1], vec![1]], vec![1], vec![0, 1, 1, 0], vec![]));
+    // pending unifications only (no edges, no interfaces), including a self pair and a duplicate
+    out.push(mk(vec![0, 0, 0], vec![], vec![], vec![], vec![], vec![], vec![(0, 2), (1, 1), (0, 2), (2, 0)]));
+    // pending unifications with edges and interfaces, labels inconsistent (lax allows it)
+    out.push(mk(vec![0, 1, 0, 1], vec![11], vec![vec![3, 0]], vec![vec![2]], vec![3, 1], vec![0], vec![(1, 3), (0, 1)]));
+    // permutation wiring without operations
+    out.push(mk(vec![0, 1, 2], vec![], vec![], vec![], vec![2, 0, 1], vec![1, 2, 0], vec![]));
+    // 2-cycle with a pending unification closing it further
+    out.push(mk(vec![0, 0], vec![10, 11], vec![vec![0], vec![1]], vec![vec![1], vec![0]], vec![0], vec![1], vec![(1, 0)]));
+    out
+}
+
+/// exhaustive family: n ≤ 2 nodes (distinct labels), ≤ 1 edge with source and target arity ≤ 1,
+/// interfaces of length ≤ 1 (n = 2) or ≤ 2 (n = 1), and with `with_q` every single pending pair
+fn exhaustive(with_q: bool) -> Vec<Lx> {
+    let mut out = vec![];
+    for n in 0..=2usize {
+        let w: Vec<u8> = (0..n as u8).collect();
+        let mut lists: Vec<Vec<usize>> = vec![vec![]];
+        for v in 0..n {
+            lists.push(vec![v]);
+        }
+        let mut ifaces = lists.clone();
+        if n == 1 {
+            ifaces.push(vec![0, 0]);
+        }
+        let mut edges: Vec<Option<(Vec<usize>, Vec<usize>)>> = vec![None];
+        for a in &lists {
+            for b in &lists {
+                edges.push(Some((a.clone(), b.clone())));
+            }
+        }
+        let mut qs: Vec<Vec<(usize, usize)>> = vec![vec![]];
+        if with_q {
+            for a in 0..n {
+                for b in 0..n {
+                    qs.push(vec![(a, b)]);
+                }
+            }
+        }
+        for e in &edges {
+            for s in &ifaces {
+                for t in &ifaces {
+                    for q in &qs {
+                        let (x, src, tgt) = match e {
+                            None => (vec![], vec![], vec![]),
+                            Some((a, b)) => (vec![10], vec![a.clone()], vec![b.clone()]),
+                        };
+                        out.push(Lx { m: M { w: w.clone(), x, src, tgt, s: s.clone(), t: t.clone() }, q: q.clone() });
+                    }
+                }
+            }
+        }
+    }
+    out
+}
+
+fn random_ff(r: &mut Rng) -> Value {
+    let target = r.range(0, 5);
+    let len = if target == 0 { 0 } else { r.range(0, 6) };
+    json!({"table": r.vec_below(len, target.max(1)), "target": target})
+}
+
+fn random_segs(r: &mut Rng) -> Value {
+    let target = r.range(0, 4);
+    let k = r.range(0, 4);
+    let segs: Vec<Vec<usize>> = (0..k)
+        .map(|_| {
+            let len = if target == 0 { 0 } else { r.range(0, 3) };
+            r.vec_below(len, target.max(1))
+        })
+        .collect();
+    json!({"segs": segs, "target": target})
+}
+
+pub fn run(ctx: &mut Ctx) {
+    if let Some((name, input)) = ctx.replay.clone() {
+        for (n, c) in CHECKS {
+            if *n == name {
+                c(ctx, &input);
+            }
+        }
+        return;
+    }
+    // (a) corners: all ordered pairs, all triples of a sub-list, every corner against the unit
+    let corners = corner_lx();
+    for f in &corners {
+        chk_strict_unit(ctx, &json!({"f": f.m.json()}));
+        chk_lax_unit(ctx, &json!({"f": f.json()}));
+        for g in &corners {
+            chk_strict_tensor(ctx, &json!({"f": f.m.json(), "g": g.m.json()}));
+            chk_lax_tensor(ctx, &json!({"f": f.json(), "g": g.json()}));
+        }
+    }
+    let sub: Vec<&Lx> = corners.iter().step_by(2).collect();
+    for f in &sub {
+        for g in &sub {
+            for h in &sub {
+                chk_strict_assoc(ctx, &json!({"f": f.m.json(), "g": g.m.json(), "h": h.m.json()}));
+                chk_lax_assoc(ctx, &json!({"f": f.json(), "g": g.json(), "h": h.json()}));
+            }
+        }
+    }
+    // component corners: empty tables with non-zero targets (non-surjective), zero targets, empty segments
+    let ffs = [json!({"table": [], "target": 0}), json!({"table": [], "target": 3}), json!({"table": [0, 0, 0, 0], "target": 1}), json!({"table": [2, 0], "target": 5}), json!({"table": [1, 1, 0], "target": 2})];
+    for f in &ffs {
+        for g in &ffs {
+            chk_ff_tensor(ctx, &json!({"f": f, "g": g}));
+        }
+    }
+    let ics = [
+        json!({"segs": [], "target": 0}),
+        json!({"segs": [], "target": 2}),
+        json!({"segs": [[], []], "target": 0}),
+        json!({"segs": [[], [1, 1, 0], []], "target": 2}),
+        json!({"segs": [[0], [2, 2]], "target": 4}),
+    ];
+    for f in &ics {
+        for g in &ics {
+            chk_ic_tensor(ctx, &json!({"f": f, "g": g}));
+        }
+    }
+    // (b) exhaustive small family: all ordered pairs (strict, without pending pairs); lax with pending
+    //     pairs: all ordered pairs in the thorough tier, every left operand against a rotating
+    //     slice of right operands in the quick tier
+    let ex = exhaustive(false);
+    for f in &ex {
+        chk_strict_unit(ctx, &json!({"f": f.m.json()}));
+        for g in &ex {
+            chk_strict_tensor(ctx, &json!({"f": f.m.json(), "g": g.m.json()}));
+        }
+    }
+    let exq = exhaustive(true);
+    let stride = if ctx.thorough() { 1 } else { 23 };
+    for (i, f) in exq.iter().enumerate() {
+        chk_lax_unit(ctx, &json!({"f": f.json()}));
+        let mut j = i % stride;
+        while j < exq.len() {
+            chk_lax_tensor(ctx, &json!({"f": f.json(), "g": exq[j].json()}));
+            j += stride;
+        }
+    }
+    let n_tri = ctx.budget(4000, 150000);
+    for _ in 0..n_tri {
+        let (a, b, c) = (ctx.rng.below(exq.len()), ctx.rng.below(exq.len()), ctx.rng.below(exq.len()));
+        chk_lax_assoc(ctx, &json!({"f": exq[a].json(), "g": exq[b].json(), "h": exq[c].json()}));
+        chk_strict_assoc(ctx, &json!({"f": exq[a].m.json(), "g": exq[b].m.json(), "h": exq[c].m.json()}));
+    }
+    // (c) random
+    let n = ctx.budget(2500, 60000);
+    for i in 0..n {
+        let b = match i % 8 {
+            0 => LARGE,
+            1 | 2 => MEDIUM,
+            _ => SMALL,
+        };
+        let f = random_lx(&mut ctx.rng, b);
+        let g = random_lx(&mut ctx.rng, b);
+        let h = random_lx(&mut ctx.rng, b);
+        chk_strict_tensor(ctx, &json!({"f": f.m.json(), "g": g.m.json()}));
+        chk_lax_tensor(ctx, &json!({"f": f.json(), "g": g.json()}));
+        chk_strict_assoc(ctx, &json!({"f": f.m.json(), "g": g.m.json(), "h": h.m.json()}));
+        chk_lax_assoc(ctx, &json!({"f": f.json(), "g": g.json(), "h": h.json()}));
+        chk_strict_unit(ctx, &json!({"f": h.m.json()}));
+        chk_lax_unit(ctx, &json!({"f": h.json()}));
+        let (a, b2) = (random_ff(&mut ctx.rng), random_ff(&mut ctx.rng));
+        chk_ff_tensor(ctx, &json!({"f": a, "g": b2}));
+        let (a, b2) = (random_segs(&mut ctx.rng), random_segs(&mut ctx.rng));
+        chk_ic_tensor(ctx, &json!({"f": a, "g": b2}));
+    }
+    // long operands: 32 + 32 nodes, pending pairs in binomial-tree order on the RIGHT operand
+    let mut q = vec![];
+    let mut step = 1;
+    while step < 32 {
+        let mut i = 0;
+        while i + step < 32 {
+            q.push((i + step, i));
+            i += 2 * step;
+        }
+        step *= 2;
+    }
+    let big = Lx { m: M { w: vec![0; 32], x: vec![10; 3], src: vec![(0..32).collect(), vec![], vec![31; 40]], tgt: vec![vec![], (0..32).rev().collect(), vec![0]], s: (0..32).collect(), t: (0..32).rev().collect() }, q };
+    chk_lax_tensor(ctx, &json!({"f": big.json(), "g": big.json()}));
+    chk_strict_tensor(ctx, &json!({"f": big.m.json(), "g": big.m.json()}));
+    chk_lax_assoc(ctx, &json!({"f": big.json(), "g": corners[9].json(), "h": big.json()}));
+    chk_strict_assoc(ctx, &json!({"f": big.m.json(), "g": corners[9].m.json(), "h": big.m.json()}));
+    ctx.notes.push(
+        "rule: operands are plain models (strict) / plain models + ordered list of pending unification pairs (lax); oracle = literal juxtaposition, compared for equality on every raw field (strict: incl. all target and segment-size fields). \
+         enumeration: (a) 18 corners: all ordered pairs, 9^3 triples, unit laws; (b) exhaustive family n<=2 nodes (distinct labels), <=1 edge of arity <=1/<=1, interfaces <=1 (n=2) or <=2 (n=1) [137 models; x every single pending pair (a,b) for lax = 542]: strict all ordered pairs, lax all ordered pairs (thorough) or every left operand x 1/23 of right operands (quick), random triples from the family; \
+         (c) seeded random SMALL(3,2,2,3,2) / MEDIUM(5,3,3,4,2) / LARGE(12 nodes,6 edges,arity 5,iface 9,3 labels) with 0..4 arbitrary pending pairs; 32-node operands with binomial-tree pending pairs on the right operand; finite-function and segmented-array tensor on their own. \
+         non-trivial = the left operand has a node and the right operand mentions a node (edge incidence, interface or pending pair), so a wrong offset is observable; unit checks: the operand has a node and an edge or interface entry."
+            .into(),
+    );
+}
